@@ -346,6 +346,8 @@ type Script struct {
 	// consts: name -> sort, for model extraction
 	consts     map[string]string
 	seenAssert map[string]bool
+	assertSyms map[int][]string
+	pruneMu    sync.Mutex
 }
 
 func NewScript() *Script {
